@@ -193,7 +193,7 @@ class C13Check(C01Check):
     oracle_prefixes = ("ENGINE:assert-semantics", "ENGINE:assume-semantics", "ENGINE:input-uncovered", "ENGINE:endstate-mismatch")
     rename = {"ENGINE:assert-semantics": "C13:assert-semantics", "ENGINE:assume-semantics": "C13:assume-semantics",
               "ENGINE:input-uncovered": "C13:input-uncovered", "ENGINE:endstate-mismatch": "C13:after-cheatcode-state"}
-    rule = ("each run = one world main -> 0-3 forwarding helper frames -> innermost frame that optionally calls vm.assume(pred) and then one "
+    rule = ("(30 % of the forwarding frames call vm.assume(success) on the flag of the forwarded call) each run = one world main -> 0-3 forwarding helper frames -> innermost frame that optionally calls vm.assume(pred) and then one "
             "vm.assert* cheatcode drawn uniformly from the 76 forge-std signatures of the reference table (True/False, Eq/NotEq over "
             "bool, uint256, int256, address, bytes32, string, bytes and their arrays, Lt/Gt/Le/Ge over uint256/int256, each with and "
             "without message). Operands: symbolic calldata words (raw, +c, ~, masked), sign/zero boundary constants, arrays of length 0-3 "
